@@ -8,6 +8,7 @@ run of instance `r` on its own actions; the reward is a function of the instance
 There is no post-finish padding in this family (C02: all rows finish at step `n`).
 -/
 import Rl4co.Env.Atsp
+import Rl4co.Proofs.TspfamParams
 
 namespace Rl4co.Atsp
 
@@ -23,7 +24,7 @@ theorem firstFlag_of_lockStep {k : Nat} {rows : List (Inst × State)} (h : LockS
   cases rows with
   | nil => cases hr
   | cons r0 rows =>
-    simp only [List.map_cons, firstFlag]
+    simp only [List.map_cons, firstFlag_cons]
     rw [h r0 (by simp), h r hr]
 
 theorem zipWith_stepWith_eq (flag : Bool) (rows : List (Inst × State)) (acts : List Nat)
